@@ -235,7 +235,14 @@ def _unpack_intmod(m, bits):
     return PackIntMod(m).unpack(list(bits), 0)
 
 
+def _array_assert_eq(a0, a1, b0, b1):
+    from pysnark.array import Array
+    return Array([a0, a1]).assert_eq(Array([b0, b1]))
+
+
+IMPL_EXTRA["array_assert_eq"] = _array_assert_eq
 IMPL.update(IMPL_EXTRA)
+REF["array_assert_eq"] = _assert(lambda a0, a1, b0, b1: a0 == b0 and a1 == b1)
 REF["array_get"] = lambda a0, a1, a2, i: [a0, a1, a2][i] if 0 <= i < 3 else (_ for _ in ()).throw(RefRaise())
 REF["array_set"] = lambda a0, a1, a2, i, v: [v if k == i else x for k, x in enumerate([a0, a1, a2])] if 0 <= i < 3 else (_ for _ in ()).throw(RefRaise())
 
